@@ -10,7 +10,9 @@
 //! private start instant between two clock reads around `build()`, sleeps to `start + n * tick`, and after
 //! every call re-reads the clock; a call that may have straddled a window edge makes the whole behaviour
 //! inconclusive: it is retried with a tick twice as long (30 -> 60 -> 120 ms) and, if it still fails,
-//! discarded and counted.  Such behaviours never become verdicts.
+//! discarded and counted.  Such behaviours never become verdicts.  One behaviour in two is run a quarter of
+//! a tick before / after the middle of the window (with a tick twice as long), so that the code's rounding
+//! of the clock to ticks is exercised too.
 //!
 //! replay mode (default): stdin = ndjson, one behaviour of spec/Gen_TimerWheel.tla per line (array of
 //!   {"step":{op,args,predicted results}, "now", "npd", "conts"}).  Every step is executed; the call's result,
@@ -61,11 +63,13 @@ struct Rig {
     re_h: Regex,
     re_c: Regex,
     now: i64,
+    /// where inside the tick window the calls are made: -1 / 0 / +1 quarter of a tick from the middle
+    phase: i64,
 }
 
 impl Rig {
     /// a fresh wheel as this thread's TIMER; its private `start` lies in [t0, t0 + eps]
-    fn install(tick_ms: u64, slots: usize) -> Result<Rig, Fail> {
+    fn install(tick_ms: u64, slots: usize, phase: i64) -> Result<Rig, Fail> {
         for _ in 0..50 {
             let t0 = Instant::now();
             let timer = Builder::default().tick_duration(Duration::from_millis(tick_ms)).num_slots(slots).capacity(16).build::<Token>();
@@ -81,6 +85,7 @@ impl Rig {
                     re_h: Regex::new(r"Timeout \{ token: Token\((\d+)\), tick: (\d+) \}").unwrap(),
                     re_c: Regex::new(r"token: (None|Some\(Token\((\d+)\)\)) \}$").unwrap(),
                     now: 0,
+                    phase,
                 });
             }
         }
@@ -112,7 +117,8 @@ impl Rig {
     /// let time pass until the middle of the window of tick `n`
     fn goto(&mut self, n: i64) -> Result<(), Fail> {
         self.now = n;
-        let target = self.t0 + Duration::from_millis(self.tick_ms * n as u64);
+        let ms = (self.tick_ms as i64 * n + self.phase * self.tick_ms as i64 / 4).max(0);
+        let target = self.t0 + Duration::from_millis(ms as u64);
         let nowi = Instant::now();
         if target > nowi {
             std::thread::sleep(target - nowi);
@@ -247,8 +253,8 @@ impl Rig {
 
 const RESULT_FIELDS: [&str; 3] = ["ret", "ok", "h"];
 
-fn replay_one(beh: &[Value], tick_ms: u64, slots: usize, stats: &mut Stats) -> Result<(), Fail> {
-    let mut rig = Rig::install(tick_ms, slots)?;
+fn replay_one(beh: &[Value], tick_ms: u64, slots: usize, phase: i64, stats: &mut Stats) -> Result<(), Fail> {
+    let mut rig = Rig::install(tick_ms, slots, phase)?;
     let r = (|| {
         for (i, snap) in beh.iter().enumerate() {
             let step = &snap["step"];
@@ -333,8 +339,10 @@ fn replay_main() {
                     continue;
                 };
                 let mut st = Stats::default();
-                let tick = tick0 << attempt;
-                let r = catch_unwind(AssertUnwindSafe(|| replay_one(&behs[i], tick, slots, &mut st)));
+                // behaviours 1, 3 (mod 4): a quarter tick early / late, tick twice as long
+                let phase = match i % 4 { 1 => -1, 3 => 1, _ => 0 };
+                let tick = (tick0 << attempt) * if phase != 0 { 2 } else { 1 };
+                let r = catch_unwind(AssertUnwindSafe(|| replay_one(&behs[i], tick, slots, phase, &mut st)));
                 let r = match r {
                     Ok(r) => r,
                     Err(p) => {
@@ -548,7 +556,9 @@ impl Driver {
 }
 
 fn drive_run(seed: u64, steps: usize, tick_ms: u64, slots: usize) -> (Vec<Value>, Option<Fail>) {
-    let rig = match Rig::install(tick_ms, slots) {
+    let phase = [0, -1, 0, 1][(seed % 4) as usize];
+    let tick_ms = if phase != 0 { tick_ms * 2 } else { tick_ms };
+    let rig = match Rig::install(tick_ms, slots, phase) {
         Ok(r) => r,
         Err(e) => return (Vec::new(), Some(e)),
     };
@@ -588,7 +598,16 @@ fn drive_main() {
                 let r = { let mut n = next.lock().unwrap(); let r = *n; *n += 1; r };
                 if r >= runs { break; }
                 let s = seed.wrapping_mul(0x9E37_79B9).wrapping_add(r as u64 * 7919 + 13);
-                let res = catch_unwind(AssertUnwindSafe(|| drive_run(s, steps, tick_ms, slots)));
+                // a run the clock cut short early is done again with a longer tick (same seed, same choices)
+                let res = catch_unwind(AssertUnwindSafe(|| {
+                    let mut best = drive_run(s, steps, tick_ms, slots);
+                    for k in 1..=2u32 {
+                        if !matches!(best.1, Some(Fail::Timing(_))) { break; }
+                        let again = drive_run(s, steps, tick_ms << k, slots);
+                        if again.0.len() > best.0.len() || again.1.is_none() || !matches!(again.1, Some(Fail::Timing(_))) { best = again; }
+                    }
+                    best
+                }));
                 let entry = match res {
                     Ok((ev, None)) => (ev, None, false),
                     Ok((ev, Some(Fail::Timing(w)))) => (ev, Some(w), false),
